@@ -9,6 +9,7 @@ from props.base import Context  # noqa: F401
 
 PID = 'C17'
 TIE_MODULES = ['DiffxVerif.Tie.Sections']
+NEEDS = ['sections', 'chunk']
 ASSUMPTIONS = [
     'io.BytesIO read/seek semantics are modelled as take/drop on the unread suffix (Reader.readUntilGo)',
     'block size is varied on the real reader by a subclass overriding _read_until(chunk_size=k); no repository hook',
@@ -45,7 +46,7 @@ class Spec(object):
     def cases(self, ctx, budget, rng):
         nfiles, pads, chunks, nrand = budget
         files = self.files(rng, nfiles)
-        block = int(self.tables['chunk'])
+        block = (int(self.tables['chunk']) or 96)
         for f in files:
             for n in pads(block):
                 d = pad_first_header(f, n)
